@@ -7,12 +7,17 @@
 EXTENDS Defs_Lines, TLC, Json, IOUtils
 Trace == ndJsonDeserialize(IOEnv.TRACE_FILE)
 VARIABLE i
+\* (the three histograms are evaluated ONCE - Strict - and then compared: TLC would otherwise re-evaluate a LET
+\* definition at every reference)
 RpFails(e) ==
-  LET o == e.obs  n == Len(o.R)  z == NoMv(n)  d == DiagHist(o.R, z)  v == VertHist(o.R, z, 1)  w == VertHist(o.R, z, 0) IN
-  (IF o.diag # d THEN {"CountsDef|diagline_dist(long lines)"} ELSE {})
-  \cup (IF o.vert # v THEN {"CountsDef|vertline_dist(long lines)"} ELSE {})
-  \cup (IF o.white # w THEN {"CountsDef|white_vertline_dist(long lines)"} ELSE {})
-  \cup (IF o.maxd # MaxLen(d) \/ o.maxv # MaxLen(v) \/ o.maxw # MaxLen(w) THEN {"MaxDef|max_diaglength/max_vertlength/max_white_vertlength(long lines)"} ELSE {})
+  LET o == e.obs  n == Len(o.R)  z == NoMv(n) IN
+  Strict(<<DiagHist(o.R, z), VertHist(o.R, z, 1), VertHist(o.R, z, 0)>>, LAMBDA h :
+    Strict(<<MaxLen(h[1]), MaxLen(h[2]), MaxLen(h[3])>>, LAMBDA m :
+      (IF o.diag # h[1] THEN {"CountsDef|diagline_dist(long lines)"} ELSE {})
+      \cup (IF o.vert # h[2] THEN {"CountsDef|vertline_dist(long lines)"} ELSE {})
+      \cup (IF o.white # h[3] THEN {"CountsDef|white_vertline_dist(long lines)"} ELSE {})
+      \cup (IF o.maxd # m[1] \/ o.maxv # m[2] \/ o.maxw # m[3]
+            THEN {"MaxDef|max_diaglength/max_vertlength/max_white_vertlength(long lines)"} ELSE {})))
 XFails(e) ==
   LET o == e.obs IN
   IF o.lexc = "NotImplementedError" THEN {}
